@@ -52,9 +52,39 @@ def dose_arg(ctx, doses, how, tag):
     return path
 
 
-def apply_filter(ctx, stack, px, doses, how, tag="a"):
+FORMS = ["xyz_c", "xyz_f", "xyz_view", "zyx_c"]
+
+
+def to_form(canon, form):
+    """gamma for the storage form of a stack whose canonical content is canon[x, y, image]:
+    xyz_c     C-ordered (W, H, n) array, input_order 'xyz' (default)
+    xyz_f     Fortran-ordered (W, H, n) array
+    xyz_view  transposed view of a C-ordered (n, H, W) array
+    zyx_c     C-ordered (n, H, W) array handed over with input_order = output_order = 'zyx'
+    Returns (array, keyword arguments)."""
+    if form == "xyz_f":
+        return np.asfortranarray(canon), {}
+    if form == "xyz_view":
+        return np.ascontiguousarray(np.transpose(canon, (2, 1, 0))).transpose(2, 1, 0), {}
+    if form == "zyx_c":
+        return np.ascontiguousarray(np.transpose(canon, (2, 1, 0))), {"input_order": "zyx", "output_order": "zyx"}
+    return np.ascontiguousarray(canon), {}
+
+
+def from_form(out, form):
+    return out.transpose(2, 1, 0) if (form == "zyx_c" and isinstance(out, np.ndarray) and out.ndim == 3) else out
+
+
+def apply_filter(ctx, stack, px, doses, how, tag="a", form="xyz_c", obs=None):
+    """dose_filter on `stack` (canonical [x, y, image] content) handed over in the storage form `form`; the result is
+    returned in canonical axes.  obs['argmut'] is set when the array that was handed over differs afterwards."""
     from cryocat import tiltstack
-    return quiet(tiltstack.dose_filter, stack, px, dose_arg(ctx, doses, how, tag))
+    arg, kw = to_form(stack, form)
+    before = arg.copy()
+    out = quiet(tiltstack.dose_filter, arg, px, dose_arg(ctx, doses, how, tag), **kw)
+    if obs is not None and not np.array_equal(arg, before):
+        obs["argmut"] = True
+    return from_form(out, form)
 
 
 def exponents(G):
@@ -87,6 +117,12 @@ def measure(ctx, case):
     how = case["doses_as"]
     rng = random.Random(case["mseed"])
     nprng = np.random.default_rng(case["mseed"])
+    form = case.get("form", "xyz_c")
+    obs = {"argmut": False}
+    _apply = globals()["apply_filter"]
+
+    def apply_filter(ctx_, stack, px_, doses, how_, tag="a"):          # every call of this case uses the case's form
+        return _apply(ctx_, stack, px_, doses, how_, tag, form=form, obs=obs)
     imp = np.zeros((W, H, n))
     imp[0, 0, :] = 1.0
     # a call with the same stack shape but another pixel size and other doses comes first: nothing of it may leak
@@ -112,21 +148,25 @@ def measure(ctx, case):
     dose_in = dose_arg(ctx, d, how, "r")
     dose_before = open(dose_in).read() if isinstance(dose_in, str) else np.array(dose_in, dtype=float).copy()
     from cryocat import tiltstack
-    first = quiet(tiltstack.dose_filter, R, px, dose_in)
-    o_r = np.array(first, dtype=float)                       # snapshot of the first result
+    # ONE array object in the case's storage form, reused for every call of this block
+    Rf, kw = to_form(R, form)
+    Rf0 = Rf.copy()
+    R2f, _ = to_form(R2, form)
+    first = quiet(tiltstack.dose_filter, Rf, px, dose_in, **kw)
+    o_r = np.array(from_form(first, form), dtype=float)      # snapshot of the first result (canonical axes)
     # independence of calls: a later call leaves the earlier result alone; after the caller overwrites the returned
-    # stacks the same call gives the same stack again; the arguments (stack, doses) are not modified
-    second = quiet(tiltstack.dose_filter, R, px, dose_in)
-    quiet(tiltstack.dose_filter, R2, px, dose_in)            # and a later call with another stack of the same shape
-    keep = float(np.max(np.abs(np.asarray(first, dtype=float) - o_r)))
+    # stacks the same call on the same array gives the same stack again; the arguments (stack, doses) are not modified
+    second = quiet(tiltstack.dose_filter, Rf, px, dose_in, **kw)
+    quiet(tiltstack.dose_filter, R2f, px, dose_in, **kw)     # and a later call with another stack of the same shape
+    keep = float(np.max(np.abs(np.asarray(from_form(first, form), dtype=float) - o_r))) if np.shape(first) == np.shape(second) else 2.0
     for arr in (first, second):
-        if isinstance(arr, np.ndarray) and arr.flags.writeable:
+        if isinstance(arr, np.ndarray) and arr.flags.writeable and not np.shares_memory(arr, Rf):
             arr[...] = 7.0
-    third = np.asarray(quiet(tiltstack.dose_filter, R, px, dose_in), dtype=float)
+    third = np.asarray(from_form(quiet(tiltstack.dose_filter, Rf, px, dose_in, **kw), form), dtype=float)
     rep = float(np.max(np.abs(third - o_r))) if third.shape == o_r.shape else 2.0
     dose_after = open(dose_in).read() if isinstance(dose_in, str) else np.array(dose_in, dtype=float)
-    argmut = not np.array_equal(R, R0) or not (dose_after == dose_before if isinstance(dose_in, str)
-                                                else np.array_equal(dose_after, dose_before))
+    argmut = not np.array_equal(Rf, Rf0) or not np.array_equal(R, R0) or not (
+        dose_after == dose_before if isinstance(dose_in, str) else np.array_equal(dose_after, dose_before))
     FR = np.stack([np.fft.fft2(R[:, :, i]) for i in range(n)])
     Gr = gains_of(o_r, W, H, n) / FR
     spread = max(float(np.max(np.abs(Gr - G))), float(np.max(np.abs(G.imag))))
@@ -161,7 +201,7 @@ def measure(ctx, case):
             gk = np.fft.fft2(ow[:, :, i])[kx % W, ky % H] / Fw
             pw = max(pw, abs(gk - G[i, kx % W, ky % H]))
             leak = max(leak, float(np.max(np.abs(ow[:, :, i] - gk.real * w))))
-    t.update({"rep": clampi(rep * 1e9 / scale), "keep": clampi(keep * 1e9 / scale), "argmut": bool(argmut)})
+    t.update({"rep": clampi(rep * 1e9 / scale), "keep": clampi(keep * 1e9 / scale), "argmut": bool(argmut or obs["argmut"])})
     t.update({"spread": clampi(spread * 1e9), "mean": clampi(mean * 1e9), "lin": clampi(lin * 1e9), "pw": clampi(pw * 1e9),
               "leak": clampi(leak * 1e9)})
     # composition: d1 then d2 against d1 + d2 at once
@@ -175,12 +215,13 @@ def measure(ctx, case):
         t["A2"] = exponents(gains_of(o2, W, H, n))[:, ix, iy].tolist()
         t["A12"] = exponents(gains_of(o12, W, H, n))[:, ix, iy].tolist()
         t["Asum"] = exponents(gains_of(osum, W, H, n))[:, ix, iy].tolist()
+    t["argmut"] = bool(t["argmut"] or obs["argmut"])
     return t
 
 
 def case_sig(case):
     return {"op": "dose_filter", "doses_as": "file" if case["doses_as"] == "file" else "array",
-            "square": case["W"] == case["H"], "nimages": 1 if case["n"] == 1 else "2+"}
+            "square": case["W"] == case["H"], "nimages": 1 if case["n"] == 1 else "2+", "form": case.get("form", "xyz_c")}
 
 
 def run_traces(ctx, cases, name="trace", batch=40, need_calibration=False):
@@ -224,7 +265,7 @@ def run_traces(ctx, cases, name="trace", batch=40, need_calibration=False):
 
 # ---- generator --------------------------------------------------------------------------------------------------
 DOSE_MODES = ["random", "random", "sorted_up", "sorted_down", "with_zero", "equal_pair", "constant", "few_values",
-              "zero_middle", "ramp_up", "ramp_down", "multiples"]
+              "zero_middle", "ramp_up", "ramp_down", "multiples", "distinct"]
 
 
 def rand_doses(rng, n, lo=0.0, hi=300.0, need_big=False, mode=None):
@@ -232,6 +273,10 @@ def rand_doses(rng, n, lo=0.0, hi=300.0, need_big=False, mode=None):
     constant vectors, arithmetic ramps and d*(1..n)."""
     mode = mode or rng.choice(DOSE_MODES)
     ds = [round(rng.uniform(lo, hi), 2) for _ in range(n)]
+    if mode == "distinct":          # strictly distinct per-image doses, at least 1 e/A^2 apart, in random order
+        step = (hi - lo) / (n + 1)
+        ds = [round(lo + (i + 1) * step + rng.uniform(-0.3, 0.3) * min(step, 3.0), 2) for i in range(n)]
+        rng.shuffle(ds)
     if mode == "sorted_up":
         ds.sort()
     elif mode == "sorted_down":
@@ -266,7 +311,7 @@ def rand_doses(rng, n, lo=0.0, hi=300.0, need_big=False, mode=None):
 
 
 def rand_case(rng, wh_lo=4, wh_hi=64, nmax=10, area_cap=None, force_grid=None, comp=None, nmin=1, dose_mode=None,
-              doses_as=None):
+              doses_as=None, form=None):
     while True:
         W, H = rng.randint(wh_lo, wh_hi), rng.randint(wh_lo, wh_hi)
         if rng.random() < 0.15:
@@ -276,7 +321,8 @@ def rand_case(rng, wh_lo=4, wh_hi=64, nmax=10, area_cap=None, force_grid=None, c
     n = rng.randint(nmin, nmax)
     grid = force_grid if force_grid is not None else rng.random() < 0.6
     case = {"W": W, "H": H, "n": n, "mseed": rng.randrange(2 ** 31),
-            "doses_as": doses_as or rng.choice(["array", "array", "list", "file"])}
+            "doses_as": doses_as or rng.choice(["array", "array", "list", "file"]),
+            "form": form or rng.choice(["xyz_c", "xyz_c"] + FORMS)}
     if grid:
         axis = rng.choice(["x", "y"])
         edge = W if axis == "x" else H
@@ -326,6 +372,8 @@ def run(ctx):
         "(0.5 %); elsewhere only through the relational clauses (radial key, monotone, proportional, additive)",
         "independence of calls (repeat after overwriting the returned stack, earlier results unchanged, stack and dose "
         "arguments untouched) is read into 'the filter is linear': a function of its arguments",
+        "storage forms of the stack: C / Fortran / transposed view with input_order xyz, C array with input_order zyx; "
+        "stack sizes 1..10 as quantified plus 11, 12, 16 images (the statement speaks of every tilt image i)",
         "tolerances: 2e-3 in the exponent, 1e-8 on residuals (spreads, linearity, mean); float64 stacks",
         "calibration table generated by tools/gen_critexp.py with decimal from the closed form in the property statement"]
     # the committed calibration table must be what the tool generates from the statement
@@ -357,6 +405,12 @@ def run(ctx):
                                       "ramp_up", "constant"]):
                 cases.append(rand_case(rng, area_cap=500, nmin=2, nmax=7, force_grid=True, comp=(i == 8), dose_mode=mode,
                                        doses_as=["array", "list", "file"][i % 3]))
+            # stack sizes over the whole range with strictly distinct doses (9, 10 and beyond), every storage form
+            for i, nimg in enumerate([1, 2, 3, 5, 8, 9, 10, 10, 12]):
+                cases.append(rand_case(rng, wh_lo=4, wh_hi=14, nmin=nimg, nmax=nimg, force_grid=(i % 2 == 0), comp=(i % 3 == 0),
+                                       dose_mode="distinct", form=FORMS[i % 4]))
+            for i, frm in enumerate(FORMS):
+                cases.append(rand_case(rng, area_cap=400, nmin=2, nmax=6, comp=True, form=frm))
             for c in cases:
                 c["pw_max"] = 16
         else:
@@ -365,6 +419,10 @@ def run(ctx):
             for _ in range(30):
                 cases.append(rand_case(rng, wh_lo=48, wh_hi=64, nmax=10))
             cases.append(rand_case(rng, wh_lo=64, wh_hi=64, nmax=10, force_grid=True, comp=True))
+            for i in range(60):
+                nimg = [1, 2, 4, 7, 8, 9, 10, 11, 12, 16][i % 10]
+                cases.append(rand_case(rng, area_cap=600, nmin=nimg, nmax=nimg, dose_mode="distinct", form=FORMS[i % 4],
+                                       comp=(i % 3 == 0)))
             for i in range(90):
                 mode = ["constant", "multiples", "zero_middle", "ramp_down", "few_values", "ramp_up"][i % 6]
                 cases.append(rand_case(rng, area_cap=900, nmin=2, force_grid=(i % 2 == 0), dose_mode=mode,
